@@ -550,7 +550,7 @@ def _enumerated(nmax):
     """Every (rule class, n) with default parameters, n = 2..nmax (class caps and parity respected): no 'magic n' can
     hide from a random draw."""
     caps = {"GaussLegendre": 100, "GaussLaguerre": 150, "RectangleRuleSineEndPoints": 129, "TrefethenCC": 129, "TrefethenGC2": 129,
-            "TrefethenStripCC": 65, "TrefethenStripGC2": 65, "ExpSinh": 13}
+            "TrefethenStripCC": 65, "TrefethenStripGC2": 65, "ExpSinh": 13, "LogExpSinh": 135}  # exp-sinh rules: float64 envelope pi/2*sinh(m h) < 690 at the default h
     rules = list(INTERP) + ["GaussChebyshev", "GaussChebyshevType2", "GaussChebyshevLobatto", "UniformInteger", "GaussLaguerre",
                             "RectangleRuleSineEndPoints", "TrefethenCC", "TrefethenGC2", "TrefethenStripCC", "TrefethenStripGC2"] + DE_RULES
     out = []
